@@ -41,7 +41,7 @@ PROPS = {
         "design_ref": "DESIGN.md §3.14 FRESHNAME/PREC, §3.21, §4 C17",
     },
     "C02": {
-        "rules": ["EXH", "PREC", "DIVMOD", "FRESHNAME", "SCALARREF", "WINDOWHOOK", "BACKPIPE"],
+        "rules": ["EXH", "PREC", "DIVMOD", "FRESHNAME", "SCALARREF", "WINDOWHOOK", "BACKPIPE", "WINALIAS@live", "FREEONCE"],
         "thorough": [],
         "technique": "static analysis: exhaustive-lowering, C-precedence table embedding, sign-proof dominance for / and %, sibling agreement on by-reference scalars, window-hook call rule",
         "level_text": "Structural clauses of code generation, decided for all programs from the source: lowering dispatches are exhaustive; the C "
@@ -201,7 +201,7 @@ PROPS = {
         "design_ref": "DESIGN.md §3.15, §4 C03",
     },
     "C06": {
-        "rules": ["FWDTHREAD", "FWDHELPERS", "FWDPRESENT", "FWDWALK"],
+        "rules": ["FWDTHREAD", "FWDHELPERS", "PATHIDX", "FWDPRESENT", "FWDWALK"],
         "thorough": [],
         "technique": "static analysis: abstract interpretation of every rewrite with a type system over tree epochs (cursor/forwarder/tree, relative to the current tree); metavariable patterns for the shared multi-edit helpers and the provenance walk",
         "level_text": "Structural clauses, decided on every path of every editing function: each elementary edit acts on a cursor into the *current* tree (never a stale one), each edit's "
